@@ -593,7 +593,8 @@ http_response_merge_trailers (request_st * const r)
         do { ++v; } while (*v == ' ' || *v == '\t');
         if (*v == '\r' || *v == '\n') continue;
         enum http_header_e id = http_header_hkey_get(k, klen);
-        http_header_response_insert(r, id, k, klen, v, (size_t)(e - v));
+        http_header_response_insert(r, id, k, klen, v,
+                                    (size_t)(e - v - (e[-1] == '\r')));
     }
     http_header_response_unset(r, HTTP_HEADER_OTHER, CONST_STR_LEN("Trailer"));
     buffer_clear(&r->gw_dechunk->b);
